@@ -608,10 +608,11 @@ __find_zrng(const struct zif_s z[static 1U], stamp_t t, int min, int max)
 		/* assume the first offset has always been there */
 		res.next = res.prev;
 	} else if (UNLIKELY(trno < 0)) {
-		/* special case where no transitions are recorded */
+		/* before the first transition, or no transitions recorded
+		 * at all, the range ends where the table begins */
 		res.trno = 0U;
 		res.prev = STAMP_MIN;
-		res.next = STAMP_MAX;
+		res.next = z->ntr ? zif_trans(z, 0) : STAMP_MAX;
 	} else {
 		res.trno = trno;
 		if (LIKELY(trno + 1U < z->ntr)) {
@@ -679,8 +680,15 @@ __offs(struct zif_s z[static 1U], stamp_t t)
 	if (LIKELY(t >= z->cache.prev && t < z->cache.next)) {
 		/* use the cached offset */
 		return z->cache.offs;
+	} else if (UNLIKELY(z->cache.next <= z->cache.prev)) {
+		/* nothing cached yet (or the last query was before the
+		 * first transition), search the whole table */
+		min = 0;
+		max = z->ntr;
 	} else if (t >= z->cache.next) {
-		min = z->cache.trno + 1;
+		/* not + 1, the range before the first transition is
+		 * recorded with transition number 0 as well */
+		min = z->cache.trno;
 		max = z->ntr;
 	} else if (t < z->cache.prev) {
 		max = z->cache.trno;
